@@ -1009,7 +1009,12 @@ class VMDKInspector(FileInspector):
             LOG.warning('Unsupported VMDK format %r', self.vmdktype)
             return 0
 
-        # If we have the descriptor, we definitely have the header
+        if not self.has_region('header'):
+            # A text-only descriptor file has no sparse header (and thus no
+            # capacity field) to read the size from
+            return 0
+
+        # If we have an embedded descriptor, we definitely have the header
         _sig, _ver, _flags, sectors, _grain, _desc_sec, _desc_num = (
             struct.unpack('<IIIQQQQ', self.region('header').data[:44]))
 
